@@ -46,3 +46,19 @@ Theorem C03_every_instance_marked : forall c g ok, denotes c g = true ->
   (forall o, In o (marked c g ok) <-> Needed (obj_cfg c g) o /\ In (cls_of g o) ok).
 Proof. exact (fun c g ok Hd => conj (marked_NoDup c g Hd ok) (marked_spec c g Hd ok)). Qed.
 Print Assumptions C03_every_instance_marked.
+
+(* ---- the same task objects across several run_tasks calls (each call with its own cache contents, outcomes and completed set):
+   every instance the last call completed carries the outcome of the last call, whatever it carried before, and every other
+   object is left as it was — given that complete_task and the setter assign unconditionally (read from the source); *)
+Theorem C03_instances_carry_latest_outcome : forall g marks rs r o, o < nobj g ->
+  nth_error (apply_runs mark_mode_src g marks (rs ++ [r])) o =
+  Some (if mem o (marked (r_cfg r) g (r_ok r)) then Some (r_meta r (cls_of g o)) else nth o (apply_runs mark_mode_src g marks rs) None).
+Proof. exact last_run_marks. Qed.
+Print Assumptions C03_instances_carry_latest_outcome.
+
+(* marking only what carries nothing yet leaves an object that is completed again with the outcome of its first completion. *)
+Theorem C03_mark_if_unset_refuted : exists g marks r1 r2 o,
+  o < nobj g /\ mem o (marked (r_cfg r2) g (r_ok r2)) = true /\
+  nth_error (apply_runs MarkIfUnset g marks [r1; r2]) o <> Some (Some (r_meta r2 (cls_of g o))).
+Proof. exact mark_if_unset_refuted. Qed.
+Print Assumptions C03_mark_if_unset_refuted.
